@@ -1,6 +1,7 @@
 import MosnVerif.Lemmas.ConfigPairs
 import MosnVerif.Lemmas.ConfigDir
 import MosnVerif.Lemmas.ConfigPairs2
+import MosnVerif.Lemmas.UpdatesMode
 /-!
 # C19 — configuration survives dump and reload unchanged (property theorems only)
 
@@ -444,5 +445,57 @@ example : (match retryU (.obj [("retry_on", .bool true), ("retry_timeout", .str 
 example : ([0, 1, 999, 1000, 1500, 999999, 1000000, 999999999, 1000000000, 59999999999, 60000000000, 3600000000000,
     3661000000001, -1, -1500000, 9223372036854775807, -9223372036854775808] : List Int).all
     (fun d => durU (.str (GoDuration.fmtDur d)) == some d) = true := by decide +kernel
+
+/-! ## a router whose persisted MODE changes at run time (directory → static and back) survives dump and reload
+
+`Model/Updates` (shared with C12): a router configuration carries `path` (`router_configs`) and `static` (`virtual_hosts`);
+`configmanager.SetRouter`'s transition — which field goes where under which condition — is regenerated (`Gen.Updates.setRouter_*`);
+`dumpRouter` is `transferConfig`, `marshalRouter` / `unmarshalRouter` are `RouterConfiguration.MarshalJSON` / `UnmarshalJSON`
+at the level of the two mode fields (the virtual hosts themselves: `dynamic_roundtrip_*` above, parameter `fsr` here). -/
+section dynupd
+open MosnVerif.Model.Updates
+
+/-- **mode_change_survives_reload**: after EVERY history of runtime updates in which routers are (re)loaded from a directory,
+from static JSON or built by code, in any order, mixed with single-route additions / removals and any other operation: for every
+router name the dumped file LOADS AGAIN (never `ErrDuplicateStaticAndDynamic`) and gives the router the running proxy holds —
+same name, same mode (the path of the LAST complete update, empty when that one was static), same virtual hosts (through the
+directory in directory mode). -/
+theorem mode_change_survives_reload (o : Oracle) (ops : List Op) (hops : ∀ op ∈ ops, opLoaderShaped op)
+    (fsr : List VHost → List VHost) (n : String) :
+    reloadRouter fsr (run o ops) n = ((run o ops).wrappers n).map (fun w => some (reloadedCfg fsr w.cfg)) ∧
+    (∀ w, (run o ops).wrappers n = some w → (run o ops).rpath n = w.cfg.path) := by
+  have hI := inv_run o ops
+  have hS := shinv_run o ops hops
+  refine ⟨?_, fun w hw => hI.r_path n w hw⟩
+  simp only [reloadRouter, dumpRouter_of_inv hI]
+  cases hw : (run o ops).wrappers n with
+  | none => rfl
+  | some w => simp [unmarshal_marshal fsr _ (hS n w hw)]
+
+/-- a store that keeps a directory path for a router whose stored configuration came from a static file is dumped with both
+`router_configs` and `virtual_hosts`; the loader refuses that file (machine-checked negative witness for the "copy the path only
+when the update carries one" shape of `SetRouter`). -/
+theorem kept_path_refused_by_loader (fsr : List VHost → List VHost) (s : State) (n : String) (c : RouterCfg)
+    (hs : s.rstore n = some c) (hstatic : c.static ≠ []) (hp : s.rpath n ≠ "") :
+    reloadRouter fsr s n = some none := by
+  simp only [reloadRouter, dumpRouter, hs, Option.map_some]
+  rw [unmarshal_marshal_both fsr { c with path := s.rpath n } hp hstatic]
+
+/-- the predicate of the `dynupd` cases holds of every model output -/
+theorem spec_dynupd_holds_on_model (o : Oracle) (ops : List Op) (hops : ∀ op ∈ ops, opLoaderShaped op) (rnames : List String) :
+    Spec.modeHolds (modeObserve o rnames (run o ops)) = true :=
+  modeHolds_on_model o ops hops rnames
+
+-- non-vacuity: directory load, static update (loader-shaped both), the reload of the dump is the static router
+example :
+    let dirCfg : RouterCfg := { name := "r", vhosts := [⟨"v1", ["a.b"], []⟩], path := "/etc/r" }
+    let stCfg : RouterCfg := { name := "r", vhosts := [⟨"v2", ["*"], []⟩], static := [⟨"v2", ["*"], []⟩] }
+    let o : Oracle := ⟨fun _ => true, fun doms d => doms.findIdx? (fun ds => ds.contains d)⟩
+    loaderShaped dirCfg ∧ loaderShaped stCfg ∧
+    (run o [.addOrUpdateRouters dirCfg]).rpath "r" = "/etc/r" ∧
+    (run o [.addOrUpdateRouters dirCfg, .addOrUpdateRouters stCfg]).rpath "r" = "" ∧
+    ((reloadRouter (fun l => l) (run o [.addOrUpdateRouters dirCfg, .addOrUpdateRouters stCfg]) "r").map
+      (·.map (fun c => (c.path, c.vhosts.map (·.name))))) = some (some ("", ["v2"])) := by decide
+end dynupd
 
 end MosnVerif.Props.C19
